@@ -19,7 +19,7 @@ Definition is_pow2 (n : N) : bool := (0 <? n) && (N.land n (n - 1) =? 0).
 (** side conditions on the constants, re-checked by computation on every run:
     the pooled hasher holds a whole chunk; the sizes are non-negative *)
 Lemma consts_ok_C06 :
-  (ChunkSize <=? HCap) && is_pow2 (Z.to_N Consts.boson_BmtBranches) && (SpanSize =? 8)
+  (ChunkSize <=? HCap) && (HCap =? ChunkSize) && is_pow2 (Z.to_N Consts.boson_BmtBranches) && (SpanSize =? 8)
   && (0 <=? Consts.boson_ChunkSize)%Z && (0 <=? Consts.boson_SpanSize)%Z
   && (0 <? Consts.protobuf_delimitedReaderMaxSize)%Z = true.
 Proof. vm_compute. reflexivity. Qed.
@@ -87,3 +87,38 @@ Theorem C06_pyramid_history : forall H (ops : list pyr_op),
   forall a p, In (a, p) (snd (pyr_run H true ops)) -> cac_valid H a p.
 Proof. intros H ops. exact (pyr_run_valid H ChunkSize SpanSize HCap cap_ok ops (([], []), []) (fun a p (F : In (a, p) []) => match F with end)). Qed.
 Print Assumptions C06_pyramid_history.
+
+(** why the repair was needed.  The check as found ([bounded = false]: the
+    pipeline BMT writer alone, no length bound), for EVERY hash function: an
+    honest chunk of maximal size followed by any non-empty tail passes the
+    check, is Put under the honest address, and is not a valid chunk
+    (F-pyramid-oversize; the harness replays this witness on every run). *)
+Lemma hcap_is_chunk : HCap = ChunkSize.
+Proof. vm_compute. reflexivity. Qed.
+
+Theorem C06_unbounded_check_accepts_oversize : forall H (a p e : list N),
+  cac_valid H a p -> lenN p = ChunkSize + SpanSize -> e <> [] ->
+  get_chunk_hashes H false a [(KHex a, p ++ e)] {| queries := []; wend := WOk |} None = ([(a, p ++ e)], GOk)
+  /\ ~ cac_valid H a (p ++ e).
+Proof. intros H a p e. unfold get_chunk_hashes. rewrite hcap_is_chunk. exact (unbounded_accepts_extension H ChunkSize SpanSize a p e). Qed.
+Print Assumptions C06_unbounded_check_accepts_oversize.
+
+(** non-vacuity.  With the toy hash [H span data = data]: an honest reply is
+    stored and returned, a reply with one byte flipped is refused; an honest
+    pyramid entry is Put, the same entry with a wrong key is refused; and the
+    hypotheses of the last theorem are satisfiable. *)
+Example C06_hyps_satisfiable :
+  let H := fun (_ d : list N) => d in
+  let nosoc := fun (_ _ : list N) => false in
+  let addr := [1; 2; 3] in
+  let pay := [3; 0; 0; 0; 0; 0; 0; 0; 1; 2; 3] in
+  let env d := {| connect_ok := true; reserve_ok := true; stream_ok := true; rep := RFrame 13 (Some d);
+                  credit_ok := true; report_ok := true; put_ok := true |} in
+  snd (retrieve_chunk H nosoc addr (env pay)) = ROk addr pay /\
+  snd (retrieve_chunk H nosoc addr (env [3; 0; 0; 0; 0; 0; 0; 0; 1; 2; 7])) = RErr EInvalid /\
+  get_chunk_hashes H true addr [(KHex addr, pay)] {| queries := [addr]; wend := WOk |} None = ([(addr, pay)], GOk) /\
+  snd (get_chunk_hashes H true [9] [(KHex [9], pay)] {| queries := []; wend := WOk |} None) = GInvalidPyramid /\
+  (exists a p e : list N, cac_valid (fun _ _ => @nil N) a p /\ lenN p = ChunkSize + SpanSize /\ e <> []).
+Proof.
+  repeat split; try (vm_compute; reflexivity). exact (unbounded_witness_exists ChunkSize SpanSize).
+Qed.
